@@ -23,6 +23,17 @@ def dist_table(data, dist):
 
 
 @numba.njit(cache=False)
+def _sparse_table(inds, indptr, data, dist):
+    n = indptr.shape[0] - 1
+    out = np.empty((n, n), dtype=np.float32)
+    for p in range(n):
+        for q in range(n):
+            out[p, q] = dist(inds[indptr[p]:indptr[p + 1]], data[indptr[p]:indptr[p + 1]],
+                             inds[indptr[q]:indptr[q + 1]], data[indptr[q]:indptr[q + 1]])
+    return out
+
+
+@numba.njit(cache=False)
 def _call_low(graph, P, Q, D, starts, n_threads):
     updates = [[(-1, -1, np.inf)] for i in range(starts.shape[0] - 1)]
     for b in range(starts.shape[0] - 1):
@@ -136,12 +147,23 @@ def run_nnd_pair(cfg, low_memory):
     rng = np.random.default_rng(cfg["data_seed"])
     n, k = cfg["n"], cfg["k"]
     X = gen_int_data(rng, n, cfg["dim"], cfg["spread"])
-    dist = pd.squared_euclidean
-    tab = dist_table(X, dist)
+    sparse = bool(cfg.get("sparse"))
+    if sparse:
+        import scipy.sparse as sp
+        from pynndescent import sparse as ps, sparse_nndescent as snd
+        for i in range(n):
+            if not X[i].any():
+                X[i, 0] = 1.0                      # keep every CSR row non-empty (empty operands read out of bounds in some kernels)
+        S = sp.csr_matrix(X); S.sort_indices()
+        dist = ps.sparse_squared_euclidean
+        tab = _sparse_table(S.indices, S.indptr, S.data, dist)
+    else:
+        dist = pd.squared_euclidean
+        tab = dist_table(X, dist)
     rs = np.random.RandomState(cfg["seed"])
     state = rs.randint(pm.INT32_MIN, pm.INT32_MAX, 3).astype(np.int64)
     if cfg["tree"]:
-        forest = rp_trees.make_forest(X, k, 2, cfg["leaf_size"], state.copy(), rs, n_jobs=None, angular=False)
+        forest = rp_trees.make_forest(S if sparse else X, k, 2, cfg["leaf_size"], state.copy(), rs, n_jobs=None, angular=False)
         leaf_array = rp_trees.rptree_leaf_array(forest)
     else:
         leaf_array = np.array([[-1]])
@@ -155,8 +177,13 @@ def run_nnd_pair(cfg, low_memory):
     s0 = state.copy()
     numba.set_num_threads(cfg["threads"])
     st = state.copy()
-    ind, dst = pm.nn_descent(X, k, st, cfg["max_candidates"], dist, cfg["n_iters"], cfg["delta"],
-                             init_graph=init, rp_tree_init=True, leaf_array=leaf_array, low_memory=low_memory)
+    if sparse:
+        ind, dst = snd.nn_descent(S.indices, S.indptr, S.data, k, st, max_candidates=cfg["max_candidates"], dist=dist,
+                                  n_iters=cfg["n_iters"], delta=cfg["delta"], rp_tree_init=True, leaf_array=leaf_array,
+                                  init_graph=init, low_memory=low_memory)
+    else:
+        ind, dst = pm.nn_descent(X, k, st, cfg["max_candidates"], dist, cfg["n_iters"], cfg["delta"],
+                                 init_graph=init, rp_tree_init=True, leaf_array=leaf_array, low_memory=low_memory)
     numba.set_num_threads(numba.config.NUMBA_NUM_THREADS)
     la = np.asarray(leaf_array)
     line = "nnd %d %d %d %d %d %d %d %d %d %d 1 %d %d | %s | %s" % (
